@@ -5,7 +5,7 @@
    such an increment (EntityModel.bump), i.e. when the u8 publisher/subscriber counter of a participant holds 255,
    a u16 writer/reader/topic counter holds 65535 (or the u32 participant counter holds 2^32-1) and one more entity
    of that kind is created in that participant. *)
-From DustDDS Require Import Base.Machine Entity.EntityModel Entity.C35Proofs.
+From DustDDS Require Import Base.Machine Entity.EntityModel Entity.C35Proofs Entity.WorldInv.
 Open Scope Z_scope.
 
 (* For ALL histories, both profiles: as long as no counter was incremented at its maximum, no creation panics and
@@ -16,6 +16,16 @@ Theorem C35_no_panic_and_distinct_handles_outside_overflow_class :
     any_ovf f = false ->
     ~ In RPanic (snd (frun pr init_factory ops)) /\ NoDup (all_handles f) /\ NoDup (all_guids f).
 Proof. exact no_panic_and_distinct. Qed.
+
+(* The same for ALL application-level scenarios: every call through a dds_async proxy (create / delete / get_qos /
+   set_qos / enable / status of any entity, delete_contained_entities, the create+delete loops of the harness) only
+   sends mails, so the scenario traces compared with the real stack enjoy the property as well. *)
+Theorem C35_every_scenario_no_panic_and_distinct_handles_outside_overflow_class :
+  forall pr ops,
+    let w := wfinal pr init_world ops in
+    any_ovf (w_f w) = false ->
+    ~ In RPanic (wrun pr init_world ops) /\ NoDup (all_handles (w_f w)) /\ NoDup (all_guids (w_f w)).
+Proof. exact scenario_no_panic_and_distinct. Qed.
 
 (* The invariant behind it holds in every reachable state and is what the C36 theorems reuse. *)
 Theorem C35_invariant_of_all_histories :
@@ -51,6 +61,7 @@ Example C35_nonvacuous :
 Proof. vm_compute. split; reflexivity. Qed.
 
 Print Assumptions C35_no_panic_and_distinct_handles_outside_overflow_class.
+Print Assumptions C35_every_scenario_no_panic_and_distinct_handles_outside_overflow_class.
 Print Assumptions C35_invariant_of_all_histories.
 Print Assumptions C35_debug_profile_panics_at_256th_publisher.
 Print Assumptions C35_release_profile_reuses_a_live_handle.
